@@ -13,6 +13,7 @@ import time
 import traceback
 
 from .model import Model, AnalysisError
+from .absint import Unmodelled
 from . import report
 
 ALL = ['C%02d' % i for i in range(1, 21)]
@@ -28,6 +29,12 @@ def run_check(prop, tier, repo, seed):
     except AnalysisError as e:
         print('ANALYSIS-ERROR property=%s %s' % (prop, e))
         return 2
+    except Unmodelled as e:
+        # a construct outside the interpreter's models stopped a rule group that does not guard itself: whatever was decided so far
+        # stands, the rest is undecided - never a violation, and not an error of the analysed code either
+        res.notes.append('undecided: rule evaluation stopped at an unmodelled construct (%s)' % e)
+        res.ob('interpreter', 'package', 'remaining rule groups', True, 'undecided: unmodelled construct %s' % e)
+        print('note: property=%s some rules undecided (unmodelled construct: %s)' % (prop, e))
     except Exception as e:      # a crash of the checker is not a violation of the property
         print('ANALYSIS-ERROR property=%s checker crashed: %r' % (prop, e))
         traceback.print_exc()
